@@ -199,6 +199,17 @@ def run(chk):
             # the reference semantics does not cover this shape: the correspondence is broken and nothing independent
             # confirms the implementation
             chk.stale.append(rec)
+    # recorded findings: replay each stored witness on the implementation; still deviating -> KNOWN-FINDING
+    for e in chk.findings:
+        w = e.get("witness", {})
+        if e.get("status") != "finding" or w.get("kind") != "sql-pairs":
+            continue
+        i = sqlimpl.run_case({"sql": w["sql"], "dialect": w["dialect"], "want": ("tables", "columns")})
+        ip = impl_paths(i)
+        if isinstance(ip, list) and [list(x) for x in pairs_of(ip)] != [list(x) for x in sorted(map(tuple, w["spec_pairs"]))]:
+            chk.known(e["id"])
+        else:
+            chk.stale.append({"kind": "finding-no-longer-reproduces", "id": e["id"], "witness": w, "impl": ip})
     sqlimpl.close_pool()
     chk.coverage.update({"statements": len(cases), "dialects": dialects, "distribution": st.as_dict(), "exhaustive": False})
     chk.assumptions += ["text -> tree (sqlfluff grammars) is not modelled",
